@@ -366,7 +366,7 @@ func (w *World) envLocked(a string) {
 			w.emit(map[string]any{"ev": "Integrate", "size": w.destInt})
 		}
 	case "revoke":
-		if w.C.Mode == "master" && w.master {
+		if w.C.Mode == "master" && w.master && !w.canceled {
 			w.master = false
 			w.mwait = make(chan struct{})
 			for _, c := range w.mcancel {
